@@ -1037,6 +1037,34 @@ psBool_t tls13ServerFoundSupportedPsk(ssl_t *ssl,
         psTraceInfo("  Trying to resume the associated session\n");
     }
 
+    if (psk->params != NULL)
+    {
+        /* The PSK's ciphersuite is about to replace the negotiated one:
+           the client must have offered it in this ClientHello, otherwise
+           we would answer with a suite it did not propose. Ignore such a
+           PSK and continue with the full handshake. */
+        cipher = sslGetCipherSpec(ssl, psk->params->cipherId);
+        if (cipher != NULL && cipher->ident != SSL_NULL_WITH_NULL_NULL &&
+                cipher != ssl->cipher)
+        {
+            psBool_t offered = PS_FALSE;
+            uint16_t k;
+
+            for (k = 0; k < ssl->tls13ClientCipherSuitesLen; k++)
+            {
+                if (ssl->tls13ClientCipherSuites[k] == cipher->ident)
+                {
+                    offered = PS_TRUE;
+                }
+            }
+            if (!offered)
+            {
+                psTraceInfo("PSK's ciphersuite was not offered: ignoring PSK\n");
+                return PS_FALSE;
+            }
+        }
+    }
+
     ssl->sec.tls13UsingPsk = PS_TRUE;
     ssl->sec.tls13ChosenPsk = psk;
     ssl->sec.tls13SelectedIdentityIndex = indexInClientPreSharedKey;
